@@ -32,6 +32,11 @@ func c01Segment(seg []Ev, store *flyt.SharedStore, l *LeafSpec) (string, bool, s
 		return fmt.Sprintf("%s: first callback is %s, not prep (trace %v)", name, seg[0].Phase, traceStrings(seg)), false, ""
 	}
 	prep := seg[0]
+	if store == nil {
+		// node of a nested flow: which store an inner flow hands to its nodes is C10's clause;
+		// here only "post receives the same store as prep"
+		store = prep.Store
+	}
 	if prep.Store != store {
 		return fmt.Sprintf("%s: prep received store %p, run was given %p", name, prep.Store, store), false, ""
 	}
@@ -68,9 +73,7 @@ func c01Segment(seg []Ev, store *flyt.SharedStore, l *LeafSpec) (string, bool, s
 			if lastExec.RetErr == nil {
 				return fmt.Sprintf("%s: fallback invoked after a successful attempt: %v", name, traceStrings(seg)), false, ""
 			}
-			if !samePayload(e.In, prep.Ret) {
-				return fmt.Sprintf("%s: fallback received %#v, prep returned %#v", name, e.In, prep.Ret), false, ""
-			}
+			// (what the fallback receives is C02's clause, not C01's)
 			stage, fb = 1, e
 		case "post":
 			if stage == 2 {
@@ -138,7 +141,11 @@ func c01Body(sc *WF) Verdict {
 		}
 		for i, seg := range segs {
 			l := sc.Nodes[seg[0].Leaf].Leaf
-			msg, succeeded, act := c01Segment(seg, rr.Store, l)
+			runStore := rr.Store
+			if sc.depth(sc.Root) >= 2 {
+				runStore = nil
+			}
+			msg, succeeded, act := c01Segment(seg, runStore, l)
 			if msg != "" {
 				return bad("C01:lifecycle", "%s", msg)
 			}
